@@ -355,7 +355,7 @@ func (f *Frame) execInstr(ns *nodeState, ins ssa.Instruction) {
 			ns.env[x] = Val{IsPtr: true, P: lv.extend(PathElem{Kind: 'a', Idx: idx})}
 		case *types.Slice:
 			sv := ex.viewOf(ns.st, v)
-			f.boundsCheck(ns, idx, FieldOf(sv, 2), x.Pos())
+			f.boundsCheck(ns, idx, slLen(sv), x.Pos())
 			if v.Origin != nil {
 				ns.env[x] = Val{IsPtr: true, P: v.Origin.extend(PathElem{Kind: 's', Idx: idx})}
 			} else {
@@ -419,7 +419,7 @@ func (f *Frame) execInstr(ns *nodeState, ins ssa.Instruction) {
 		ln := f.operand(ns.env, x.Len).T
 		f.safety(ns, "makeslice", leT(IntLit64(0, ln.Sort), ln), "makeslice: len out of range", x.Pos())
 		c := ex.newCell(f.prefix+x.Name()+"_slice", s, stp)
-		ns.st[c] = MkData(s, vc.zeroTerm(s.Fields[0].Sort), IntLit64(0, SInt), ln, TFalse)
+		ns.st[c] = MkData(s, vc.zeroTerm(s.Fields[0].Sort), ln, TFalse)
 		ns.env[x] = Val{T: ns.st[c], Origin: &LV{Cell: c}}
 	case *ssa.Slice:
 		f.sliceOp(ns, x)
@@ -496,7 +496,7 @@ func (f *Frame) sliceOp(ns *nodeState, x *ssa.Slice) {
 	switch u := x.X.Type().Underlying().(type) {
 	case *types.Slice:
 		s := ex.viewOf(ns.st, v)
-		ln := FieldOf(s, 2)
+		ln := slLen(s)
 		if lo.Nil() {
 			lo = IntLit64(0, SInt)
 		}
@@ -504,7 +504,17 @@ func (f *Frame) sliceOp(ns *nodeState, x *ssa.Slice) {
 			hi = ln
 		}
 		f.safety(ns, "slice", And(leT(IntLit64(0, SInt), lo), leT(lo, hi), leT(hi, ln)), "slice bounds out of range (checked against len, not cap)", x.Pos())
-		r := MkData(s.Sort, FieldOf(s, 0), addT(FieldOf(s, 1), lo), subT(hi, lo), FieldOf(s, 3))
+		var r Term
+		if lo.K != nil && lo.K.Sign() == 0 {
+			r = MkData(s.Sort, slArr(s), hi, slNil(s))
+		} else {
+			// shifted contents: fresh array with a target-index axiom
+			na := vc.Declare(f.prefix+x.Name()+"_arr", slArr(s).Sort)
+			j := Atom("q_j", SInt)
+			ax := Implies(And(leT(IntLit64(0, SInt), j), ltT(j, subT(hi, lo))), Eq(Select(na, j), Select(slArr(s), addT(lo, j))))
+			vc.Assume(Term{S: fmt.Sprintf("(forall ((q_j Int)) %s)", ax.S), Sort: SBool}, "re-slicing: contents of the result")
+			r = MkData(s.Sort, na, subT(hi, lo), slNil(s))
+		}
 		f.bind(ns, x, Val{T: r})
 	case *types.Pointer:
 		at := u.Elem().Underlying().(*types.Array)
@@ -526,7 +536,10 @@ func (f *Frame) sliceOp(ns *nodeState, x *ssa.Slice) {
 			a = Store(a, IntLit64(i, SInt), FieldOf(arr, int(i)))
 		}
 		f.safety(ns, "slice", And(leT(IntLit64(0, SInt), lo), leT(lo, hi), leT(hi, IntLit64(n, SInt))), "slice bounds out of range", x.Pos())
-		f.bind(ns, x, Val{T: MkData(ss, a, lo, subT(hi, lo), TFalse)})
+		if lo.K == nil || lo.K.Sign() != 0 {
+			ex.fail("slice of an array from a non-zero index")
+		}
+		f.bind(ns, x, Val{T: MkData(ss, a, hi, TFalse)})
 	default:
 		ex.fail("slice of %s", x.X.Type())
 	}
@@ -773,7 +786,7 @@ func (f *Frame) binop(ns *nodeState, x *ssa.BinOp, av, bv Val) Val {
 		} else {
 			ex.fail("comparison of maps/slices")
 		}
-		r := FieldOf(s, 3)
+		r := nilOf(s)
 		if x.Op == token.NEQ {
 			r = Not(r)
 		}
